@@ -221,6 +221,21 @@ def run(ctx):
             if w is True and not out.startswith("bytes:"):
                 viol.append({"what": "a reused KeyBlock rejected a block authentic under its current KBPK",
                              "input": {"kbpk": k.hex(), "ops": [core.op_token(x) for x in ops]}, "expected": "key", "observed": out[:80]})
+    # a key block handed over as bytes / bytearray (not in the documented domain): whatever unwrap does with it, a block with
+    # foreign bytes spliced in must not yield a key
+    for v in "ABCD":
+        c = t.gen_case(rng, version=v, profile="few", keylen=16, mask=None)
+        g = tr31.wrap(c["kbpk"], t.impl_header(c), c["key"]).encode("ascii")
+        for pos in (0, 3, 9, 17, len(g) - 9, len(g)):
+            for junk in (b"\x80", b"\xff\xfe", b"\xc3\xa9"):
+                for conv in (bytes, bytearray):
+                    tampered = conv(g[:pos] + junk + g[pos:])
+                    try:
+                        r = tr31.unwrap(c["kbpk"], tampered)
+                        viol.append({"what": "a key block given as bytes with foreign bytes spliced in was unwrapped", "input": {"kbpk": c["kbpk"].hex(), "string": repr(bytes(tampered))[:200]},
+                                     "expected": "rejected", "observed": "key " + r[1].hex()})
+                    except Exception:  # noqa: BLE001
+                        pass
     dist["reused_object_sequences"] = len(seqs)
     tv, tcalls = t.threaded_unwraps(rng)
     viol += tv
